@@ -243,7 +243,16 @@ pub fn check_case(env: &Env, ctx: &Ctx, case: &Case, hash_seeds: &[u64]) -> (Opt
         match &first {
             None => first = Some((*hs, r.stdout.clone(), r.exit_code, r.stderr.clone())),
             Some((hs0, out0, ex0, err0)) => {
-                if &r.stdout != out0 || r.exit_code != *ex0 || &r.stderr != err0 {
+                // the thread id in a panic message is the pid: environment, not output
+                let norm = |b: &[u8]| -> Vec<u8> {
+                    let t = String::from_utf8_lossy(b).to_string();
+                    if t.contains("panicked at") {
+                        t.bytes().filter(|c| !c.is_ascii_digit()).collect()
+                    } else {
+                        b.to_vec()
+                    }
+                };
+                if &r.stdout != out0 || r.exit_code != *ex0 || norm(&r.stderr) != norm(err0) {
                     let a = String::from_utf8_lossy(&simcore::text::strip_ansi(out0)).to_string();
                     let b = String::from_utf8_lossy(&simcore::text::strip_ansi(&r.stdout)).to_string();
                     let dl = a.lines().zip(b.lines()).find(|(x, y)| x != y).map(|(x, y)| format!("{:?} vs {:?}", x.trim(), y.trim())).unwrap_or_else(|| "(differences in escape sequences or length only)".into());
